@@ -320,6 +320,24 @@ def readCrxMoov : M Unit := do
 
 /-! ### preview -/
 
+/-- parsePreviewBox, the preview callback and closing the PRVW box, inside that box -/
+def prvwBody (typ : Bytes) : M (Except ErrKind Unit) := do
+  if typ != t_PRVW then pure (Except.error ErrKind.wrongBoxType)
+  else
+    match ← attempt (peek 24) with
+    | .error _ => pure (Except.error ErrKind.bufLength)
+    | .ok pb =>
+      let w := beNat ((pb.drop 14).take 2)
+      let hgt := beNat ((pb.drop 16).take 2)
+      let sz := beNat ((pb.drop 20).take 4)
+      match ← attempt (discard 24) with
+      | .error _ => pure (Except.error ErrKind.bufLength)
+      | .ok _ =>
+        let s ← get
+        if s.cfg.hasPrvw then
+          let _ ← attempt (callback "prvw" [sz, w, hgt])
+        attempt close
+
 def readPreview : M Unit := do
   -- createPRVWBox
   match ← attempt (discard 8) with
@@ -331,23 +349,7 @@ def readPreview : M Unit := do
     let b ← head
     let size : Int := be32 buf
     let typ := (buf.drop 4).take 4
-    let r ← openBox size size (b.size - b.remain + b.offset) typ (do
-      -- parsePreviewBox
-      if typ != t_PRVW then pure (Except.error ErrKind.wrongBoxType)
-      else
-        match ← attempt (peek 24) with
-        | .error _ => pure (Except.error ErrKind.bufLength)
-        | .ok pb =>
-          let w := beNat ((pb.drop 14).take 2)
-          let hgt := beNat ((pb.drop 16).take 2)
-          let sz := beNat ((pb.drop 20).take 4)
-          match ← attempt (discard 24) with
-          | .error _ => pure (Except.error ErrKind.bufLength)
-          | .ok _ =>
-            let s ← get
-            if s.cfg.hasPrvw then
-              let _ ← attempt (callback "prvw" [sz, w, hgt])
-            attempt close)
+    let r ← openBox size size (b.size - b.remain + b.offset) typ (prvwBody typ)
     match r with
     | .ok _ => pure ()
     | .error e => fail e
